@@ -222,7 +222,52 @@ func classOf(c *Case, po *action.SignedTx, e *Enc) string {
 		}
 		return "noncanonical"
 	}
+	if strings.HasPrefix(e.Op, "siglist-") && sameSignedContent(po, pe) {
+		return "siglist"
+	}
 	return "not-equivalent"
+}
+
+// sameSignedContent: the same signed part (type, data, fee, memo) and every original signature entry
+// still present, in order, at the head of the list: only the unsigned signature list was extended.
+func sameSignedContent(a, b *action.SignedTx) bool {
+	if a.Type != b.Type || !bytes.Equal(a.Data, b.Data) || !sameFee(a.Fee, b.Fee) || a.Memo != b.Memo || len(b.Signatures) <= len(a.Signatures) {
+		return false
+	}
+	for i := range a.Signatures {
+		x, y := a.Signatures[i], b.Signatures[i]
+		if x.Signer.KeyType != y.Signer.KeyType || !bytes.Equal(x.Signer.Data, y.Signer.Data) || !bytes.Equal(x.Signed, y.Signed) {
+			return false
+		}
+	}
+	return true
+}
+
+// sigListOps: the signature list is not covered by any signature. These operators keep the signed part
+// and every original entry and append entries; the result is serialised canonically (SignedBytes).
+var sigListOps = []string{"siglist-append-copy-of-first", "siglist-append-junk", "siglist-append-foreign-valid", "siglist-append-empty-entry"}
+
+func sigListReencode(orig []byte, op string, foreign *sim.User) []byte {
+	tx, err := decode(orig)
+	if err != nil || len(tx.Signatures) == 0 {
+		return orig
+	}
+	switch op {
+	case "siglist-append-copy-of-first":
+		tx.Signatures = append(tx.Signatures, tx.Signatures[0])
+	case "siglist-append-junk":
+		tx.Signatures = append(tx.Signatures, action.Signature{Signer: tx.Signatures[0].Signer, Signed: []byte("not a signature at all, just sixty-four bytes of text to fill it.")})
+	case "siglist-append-foreign-valid":
+		if foreign != nil {
+			more, derr := decode(txgen.SignRaw(tx.RawTx, foreign))
+			if derr == nil && len(more.Signatures) == 1 {
+				tx.Signatures = append(tx.Signatures, more.Signatures[0])
+			}
+		}
+	case "siglist-append-empty-entry":
+		tx.Signatures = append(tx.Signatures, action.Signature{})
+	}
+	return tx.SignedBytes()
 }
 
 // runCase executes a case on a fresh world.
